@@ -47,10 +47,26 @@ FIXED = [
     ("C10", "472b534", "Or over an operand made of several assertions (TasksContiguous, ScheduleNTasksInTimeIntervals, WorkLoad, groups) was satisfied by any single one of them (assertion lists flattened into one disjunction)"),
     ("C08", "73d9578", "utilisation -15% / reduced cost: unscheduled optional task with delay_in had an inverted (negative length) busy interval"),
     ("C06", "73d9578", "unscheduled optional task with a delayed assignment contributed a negative busy time to utilisation, cost and workload"),
+    ("C06", "477d477", "OrderedTaskGroup([a, o, b]) with the optional o unscheduled no longer ordered a and b (differs from the same group with o deleted)"),
     ("C18", "939afbe", "ResourceNonDelay / TasksContiguous / IndicatorResourceIdle over a single task raised 'assertion And already added'"),
 ]
 
+_BUF = ("optimizer='optimize' (z3.Optimize) returns non-optimal schedules, differently from run to run, as soon as the problem has "
+        "a buffer: the non-concurrent encoding uses arrays, the concurrent one quantified functions, and z3 4.12 optimises "
+        "neither reliably (it warns 'optimization with quantified constraints is not supported' for the latter only); the "
+        "incremental optimiser is not affected. Repair would need another buffer encoding")
+_BUF_IN = ("tasks t0 (fixed 2), t1 (fixed 2, optional, priority 4), t2 (variable 1..3, priority 0), NonConcurrentBuffer(initial 3, lower 0), "
+           "TaskLoadBuffer(t0, 2), TaskEndBefore(t2, 3), ObjectivePriorities: incremental -> 2 every time, optimize -> 2, 3 or 5")
 OPEN = [
+    {"property": "C07", "key": "builtin-optimizer-suboptimal-with-buffers", "where": "processscheduler/solver.py buffer encoding + z3.Optimize",
+     "match": {"clause": "C07.not_optimal_bruteforce", "direction": "suboptimal", "features": {"optimizer": "optimize", "has_buffer": True}},
+     "minimal_input": _BUF_IN, "description": _BUF},
+    {"property": "C07", "key": "builtin-optimizer-suboptimal-with-buffers", "where": "processscheduler/solver.py buffer encoding + z3.Optimize",
+     "match": {"clause": "C07.better_schedule_exists", "direction": "suboptimal", "features": {"optimizer": "optimize", "has_buffer": True}},
+     "minimal_input": _BUF_IN, "description": _BUF},
+    {"property": "C15", "key": "builtin-optimizer-suboptimal-with-buffers", "where": "processscheduler/solver.py buffer encoding + z3.Optimize",
+     "match": {"clause": "C15.optimum_differs", "direction": "differs", "features": {"optimize_with_buffer": True}},
+     "minimal_input": _BUF_IN, "description": _BUF},
     {"property": "C10", "key": "negated-operand-with-auxiliary-unknowns",
      "where": "processscheduler/first_order_logic.py Not / Xor over util.sort_no_duplicates, TaskGroup, ScheduleNTasksInTimeIntervals, WorkLoad encodings",
      "match": {"clause": "C10.*", "direction": "admitted-invalid", "features": {"aux_under_negation": True}},
